@@ -52,6 +52,12 @@ PROPS = {
           "Oracle: all canonical ledger dumps (every table of the observation point, row ids and pn_sync_version.unix_timestamp excluded) are byte-identical. "
           "Non-trivial = the chain contains >= 2 holders with equal stake at a paying snapshot; distinct by (start, tie shape, chain size).",
           quick=(8, 8), thorough=(16, 150), timeout=(600, 3000)),
+ "C09": P("TestC09", "exploration",
+          "rapid generates 2.0.5 chains (PIP-10 averaging active, window 3-8 blocks, prices moving up to 8% per block so that average != spot, 0-3 conversions per block, transfers; "
+          "ungraded heights inside the window only when the registered finding allows) and general 2.0.2+ chains (some crossing a snapshot height), with 1-4 restart heights biased to "
+          "active heights and the block before them. Oracle: ledger dump of the continuous run == ledger dump of the run with a clean Close/NewPegnetd at every restart height. "
+          "Non-trivial = PIP-10 chain with >= 1 conversion; distinct by (start, window, shape, restart set).",
+          quick=(8, 10), thorough=(16, 160), timeout=(600, 3000)),
 }
 
 ALL = ["C%02d" % i for i in range(1, 21)]
@@ -72,6 +78,9 @@ TEXT = {
  "C01": {"technique": "property-based testing (rapid tie-rich chains); differential between independent replays of the real daemon (in-process and in fresh OS processes)",
          "level_text": "Exploration: every generated chain is synced by 4-7 independent daemon instances and their full ledger dumps compared byte for byte.",
          "level_note": "Map-order and scheduling variation comes from Go's per-range randomisation, fresh processes and yield jitter in the fake node; sort stability of the Go runtime itself is not varied. Legacy-bank request ties are generated by C16's chains."},
+ "C09": {"technique": "property-based testing (rapid chains x restart sets); differential continuous run vs restarted run of the real daemon",
+         "level_text": "Exploration: each case syncs the same chain twice through the real daemon, once continuously and once with clean restarts, and compares the complete ledger dumps.",
+         "level_note": "Ungraded heights inside the PIP-10 window are a registered known finding (restart changes conversion amounts) and are excluded from the search; its probe reproduces it deterministically."},
 }
 
 _BUILT = set(PROPS)
